@@ -78,6 +78,17 @@ func (c verifCand) Type() ice.CandidateType {
 }
 func (c verifCand) Address() string { return c.a.value }
 
+type verifPoison struct{ ice.Candidate }
+
+func (verifPoison) Type() ice.CandidateType {
+	verifapi.Assert(false, "a candidate returned together with an error is used")
+	return ice.CandidateTypeHost
+}
+func (verifPoison) Address() string {
+	verifapi.Assert(false, "a candidate returned together with an error is used")
+	return ""
+}
+
 func verifFind(value string) *verifAttr {
 	for m := 0; m < 2; m++ {
 		for k := 0; k < 3; k++ {
@@ -91,7 +102,8 @@ func verifFind(value string) *verifAttr {
 func verifUnmarshalCandidate(raw string) (ice.Candidate, error) {
 	a := verifFind(raw)
 	if a.candFails {
-		return nil, errors.New("ice: malformed candidate (stub)")
+		// results returned together with an error are unspecified: hand back an unusable value
+		return verifPoison{}, errors.New("ice: malformed candidate (stub)")
 	}
 	return verifCand{a: a}, nil
 }
